@@ -222,7 +222,7 @@ CHECKS = {
         "level_note": "trusted: kani-compiler, CBMC, CaDiCaL; ideal-checksum oracle (a damaged frame fails its check; CRC collisions excluded); ArrW/ArrR devices; cases where the reader's cursor would fork are cut one call after the failure (DESIGN B18)",
         "filters": ["c09_"],
         "quick": {"harnesses": [("16", "c09_crc_q*")], "jobs": 14, "timeout": 1200},
-        "thorough": {"harnesses": [("16", "c09_*"), ("32", "c09_crc_t32_*")], "jobs": 16, "timeout": 3000},
+        "thorough": {"harnesses": [("16", "c09_*"), ("32", "c09_crc_t32_*")], "jobs": 8, "timeout": 3000},
         "rule": ("case = (length triple, frame index, damage kind, variant); lengths pairwise distinct; hit frame enumerated over every frame of "
                  "the stream; non-trivial = the hit frame belongs to a multi-frame entry or is followed by other entries; counted from the symex log"),
         "samples": ["c09_crc_q_a_f2: lengths (5,20,1), frame 2 = Middle frame of the 3-frame entry: payload <- 9 symbolic bytes; checksum ^0x01 / ^0x80.. / zeroed / 0xff",
@@ -245,7 +245,7 @@ CHECKS = {
         "level_note": "trusted: kani-compiler, CBMC, CaDiCaL; ideal-checksum oracle; from_utf8 stub (ASCII queue names); concrete payload patterns when a damaged length makes the reader parse payload bytes as headers",
         "filters": ["c08_"],
         "quick": {"harnesses": [("16", "c08_hdr_q*"), ("16", "c08_len_q*"), ("16", "c08_crc_*_q*"), ("real", "c08_deser_q*")], "jobs": 14, "timeout": 1200},
-        "thorough": {"harnesses": [("16", "c08_hdr_*"), ("16", "c08_len_*"), ("16", "c08_crc_*"), ("32", "c08_*_t32_*"), ("real", "c08_deser_*")], "jobs": 16, "timeout": 3000},
+        "thorough": {"harnesses": [("16", "c08_hdr_*"), ("16", "c08_len_*"), ("16", "c08_crc_*"), ("32", "c08_*_t32_*"), ("real", "c08_deser_*")], "jobs": 8, "timeout": 3000},
         "rule": ("stream cases = (length triple, frame, header damage kind, variant), all frames x all variants; entry cases = (buffer length N, "
                  "queue-name length) with tag, position, batch headers and payload bytes symbolic; counted from the symex log"),
         "samples": ["c08_len_q_a_f3: lengths (5,20,1), Last frame of the 3-frame entry: length field -> 0, 1, 3, 16, 0xffff",
@@ -270,7 +270,7 @@ CHECKS = {
         "level_note": "trusted: kani-compiler, CBMC, CaDiCaL; ideal-checksum oracle; from_utf8 stub; forking cases cut one call after the failure (B18)",
         "filters": ["c12_"],
         "quick": {"harnesses": [("16", "c12_ent_*_q*"), ("16", "c12_cut_q*"), ("real", "c12_batch_q*")], "jobs": 14, "timeout": 1500},
-        "thorough": {"harnesses": [("16", "c12_ent_*"), ("16", "c12_big_*"), ("16", "c12_cut_*"), ("real", "c12_batch_*")], "jobs": 16, "timeout": 3600, "mem_gb": 16},
+        "thorough": {"harnesses": [("16", "c12_ent_*"), ("16", "c12_big_*"), ("16", "c12_cut_*"), ("real", "c12_batch_*")], "jobs": 8, "timeout": 3600, "mem_gb": 16},
         "rule": "case = (frame of the large entry, damage kind, variant) or (cut offset) or (batch shape, truncation point); counted from the symex log",
         "samples": ["c12_ent_len_q_a_f3: lengths (5,20,1): entry 1 = First+Middle+Last; Last frame: length -> 0, 1, 3, 16, 0xffff",
                     "c12_ent_crc_q_a_f2: Middle frame: payload <- symbolic garbage; checksum 4 variants", "c12_cut_q_a_c040: cuts 40..45 inside the 3-frame entry", "c12_batch_q_1_0_2: batch of payload lengths 1,0,2 at symbolic start position, all 51 truncations"],
@@ -292,7 +292,7 @@ CHECKS = {
         "level_note": "trusted: kani-compiler, CBMC, CaDiCaL; ideal-checksum oracle for the torn frame; effects reach the zero-prefilled file in program order (process-crash model)",
         "filters": ["c02_"],
         "quick": {"harnesses": [("16", "c02_torn_q*"), ("16", "c02_resume_q*")], "jobs": 14, "timeout": 1500},
-        "thorough": {"harnesses": [("16", "c02_torn_*"), ("16", "c02_resume_*"), ("32", "c02_*_t32_*")], "jobs": 16, "timeout": 3000},
+        "thorough": {"harnesses": [("16", "c02_torn_*"), ("16", "c02_resume_*"), ("32", "c02_*_t32_*")], "jobs": 8, "timeout": 3000},
         "rule": "case = (length triple, cut offset), every offset 0..=end; non-trivial = the cut falls inside a frame payload; counted from the symex log",
         "samples": ["c02_torn_q_a_c036: lengths (5,20,1), cuts 36..41 (inside the Middle frame of entry 1)",
                     "c02_resume_q_a_n3_f0: crash after frame 0/1/2 of (5,20,1) (frame 1 = orphan First frame of entry 1), then a real writer resumes there with a new 3-byte entry; recover all"],
